@@ -351,6 +351,14 @@ impl AnySorter {
             AnySorter::Tmp(s) => s.insert(k, v).map_err(|e| fmt_err(&e)),
         }
     }
+    /// the public estimate (arithmetic on sizes: must not overflow / panic)
+    fn estimate(&self) -> u64 {
+        match self {
+            // only defined for the default chunk creator
+            AnySorter::Tmp(s) => s.estimated_dumped_memory_usage(),
+            _ => 0,
+        }
+    }
     fn fingerprint(&self) -> (usize, usize, usize, usize) {
         match self {
             AnySorter::Custom(s) => s.verif_fingerprint(),
@@ -1100,163 +1108,6 @@ impl Interp {
                     None => self.emit(line, "ok".into(), "-".into()),
                 }
             }
-            "!hugeentry" => {
-                // C14 at the API level with BOTH length prefixes wide: a key of klen and a value of vlen bytes
-                // (e.g. 2^21 and 2^28) written by the real writer and read back by the real reader
-                let klen: usize = toks[1].parse().unwrap_or(0);
-                let vlen: usize = toks[2].parse().unwrap_or(0);
-                let r = catch_unwind(AssertUnwindSafe(|| -> Result<(), String> {
-                    let key: Vec<u8> = (0..klen).map(|i| (i % 251) as u8 | 1).collect();
-                    let val: Vec<u8> = (0..vlen).map(|i| (i % 241) as u8).collect();
-                    let mut w = grenad::Writer::memory();
-                    w.insert(b"", b"x").map_err(|e| e.to_string())?;
-                    w.insert(&key, &val).map_err(|e| e.to_string())?;
-                    let mut last = key.clone();
-                    last.push(0xff);
-                    w.insert(&last, b"tail").map_err(|e| e.to_string())?;
-                    let bytes = w.into_inner().map_err(|e| e.to_string())?;
-                    let rd = grenad::Reader::new(std::io::Cursor::new(bytes)).map_err(|e| e.to_string())?;
-                    let mut c = rd.into_cursor().map_err(|e| e.to_string())?;
-                    let e0 = c.move_on_next().map_err(|e| e.to_string())?.map(|(k, v)| (k.len(), v.len()));
-                    if e0 != Some((0, 1)) { return Err(format!("first_entry_{:?}", e0)); }
-                    match c.move_on_next().map_err(|e| e.to_string())? {
-                        Some((k, v)) if k == &key[..] && v == &val[..] => {}
-                        Some((k, v)) => return Err(format!("entry_of_{}+{}_bytes_read_back_as_{}+{}_bytes_or_altered", klen, vlen, k.len(), v.len())),
-                        None => return Err("entry_lost".into()),
-                    }
-                    match c.move_on_next().map_err(|e| e.to_string())? {
-                        Some((k, v)) if k == &last[..] && v == b"tail" => Ok(()),
-                        other => Err(format!("entry_after_the_wide_one_{:?}", other.map(|(k, v)| (k.len(), v.len())))),
-                    }
-                }));
-                let verdict = match r {
-                    Ok(Ok(())) => "ok".to_string(),
-                    Ok(Err(m)) => { self.oracle_failures += 1; format!("ORACLE-FAIL {}", m.replace(' ', "_")) }
-                    Err(p) => { self.oracle_failures += 1; format!("ORACLE-FAIL panic_{}", panic_name(p)) }
-                };
-                self.emit(line, verdict, "-".into());
-            }
-            "!v1big" => {
-                // C10: the V1 trailer's count is a full u64 next to a hard-wired zero index depth: re-trailer
-                // the last levels = 0 file with counts using every byte; open, len and a full scan must be
-                // those of the V2 file (implementation-only oracle)
-                let b = self.last_file.clone();
-                let es = self.last_es.clone();
-                let mut verdict = "skip".to_string();
-                if let Ok(t) = decode::trailer(&b) {
-                    if t.version == 2 && t.levels == 0 {
-                        verdict = "ok".into();
-                        for count in [1u64 << 32, (1u64 << 40) + 7, 1u64 << 56, 0x0123_4567_89ab_cdef, u64::MAX] {
-                            let mut v1 = b[..b.len() - 22].to_vec();
-                            v1.extend_from_slice(&t.root.to_le_bytes());
-                            v1.push(t.codec);
-                            v1.extend_from_slice(&count.to_le_bytes());
-                            v1.extend_from_slice(&0x76324D4Cu32.to_le_bytes());
-                            let r = catch_unwind(AssertUnwindSafe(|| -> Result<(), String> {
-                                let rd = grenad::Reader::new(std::io::Cursor::new(v1)).map_err(|e| format!("open:{}", e))?;
-                                if rd.len() != count { return Err(format!("len={}_for_stored_count_{}", rd.len(), count)); }
-                                if rd.file_version() != grenad::FileVersion::FormatV1 { return Err("version".into()); }
-                                let mut c = rd.into_cursor().map_err(|e| format!("cursor:{}", e))?;
-                                let mut got: Vec<Entry> = Vec::new();
-                                while let Some((k, v)) = c.move_on_next().map_err(|e| format!("scan:{}", e))? {
-                                    got.push((k.to_vec(), v.to_vec()));
-                                    if got.len() > es.len() + 1 { break; }
-                                }
-                                if got != es { return Err(format!("scan_of_{}_entries_returned_{}", es.len(), got.len())); }
-                                Ok(())
-                            }));
-                            match r {
-                                Ok(Ok(())) => {}
-                                Ok(Err(m)) => { verdict = format!("ORACLE-FAIL v1_count_{}_{}", count, m.replace(' ', "_")); break; }
-                                Err(p) => { verdict = format!("ORACLE-FAIL v1_count_{}_panic_{}", count, panic_name(p)); break; }
-                            }
-                        }
-                    }
-                }
-                if verdict.starts_with("ORACLE") { self.oracle_failures += 1; }
-                self.emit(line, verdict, "-".into());
-            }
-            "truncs" => {
-                let b = self.last_file.clone();
-                let all = toks.get(1).copied() == Some("all");
-                let mut cases: Vec<Vec<u8>> = (0..=b.len()).map(|n| b[..n].to_vec()).collect();
-                let tl = b.len().min(22);
-                for i in 0..tl {
-                    let at = b.len() - tl + i;
-                    if all {
-                        for x in 1..=255u8 {
-                            let mut c = b.clone();
-                            c[at] ^= x;
-                            cases.push(c);
-                        }
-                    } else {
-                        for bit in 0..8 {
-                            let mut c = b.clone();
-                            c[at] ^= 1 << bit;
-                            cases.push(c);
-                        }
-                    }
-                }
-                for c in cases {
-                    self.run_line(&format!("open {}", hex(&c)));
-                }
-            }
-            "!corrupt" => {
-                // C17, read paths on damaged blocks: every single-byte damage (three masks) of the block
-                // region of an uncompressed file; each damaged file is opened and walked under catch_unwind.
-                // The crate may return an error or panic (a clean slice-index panic) but must never abort
-                // the process or hand out a key / value that cannot lie inside the file's bytes.
-                let b = self.last_file.clone();
-                let mut cases = 0u64;
-                let mut bad: Option<String> = None;
-                if let Ok(t) = decode::trailer(&b) {
-                    if t.codec == 0 {
-                        let end = (t.root as usize + 8).min(b.len());
-                        'outer: for at in 0..end {
-                            for mask in [0x80u8, 0x01, 0x7f] {
-                                let mut c = b.clone();
-                                c[at] ^= mask;
-                                let flen = c.len();
-                                cases += 1;
-                                let r = catch_unwind(AssertUnwindSafe(|| -> Option<String> {
-                                    let rd = match grenad::Reader::new(std::io::Cursor::new(c)) { Ok(r) => r, Err(_) => return None };
-                                    let mut cur = rd.into_cursor().ok()?;
-                                    let mut steps = 0;
-                                    let chk = |k: &[u8], v: &[u8]| if k.len() + v.len() > flen { Some(format!("entry_of_{}+{}_bytes_from_a_{}_byte_file", k.len(), v.len(), flen)) } else { None };
-                                    while let Ok(Some((k, v))) = cur.move_on_next() {
-                                        if let Some(m) = chk(k, v) { return Some(m); }
-                                        steps += 1;
-                                        if steps > 64 { break; }
-                                    }
-                                    cur.reset();
-                                    steps = 0;
-                                    while let Ok(Some((k, v))) = cur.move_on_prev() {
-                                        if let Some(m) = chk(k, v) { return Some(m); }
-                                        steps += 1;
-                                        if steps > 64 { break; }
-                                    }
-                                    if let Ok(Some((k, v))) = cur.move_on_key_greater_than_or_equal_to([0x61u8]) {
-                                        if let Some(m) = chk(k, v) { return Some(m); }
-                                    }
-                                    None
-                                }));
-                                if let Ok(Some(m)) = r {
-                                    bad = Some(format!("{}_after_xor_{:#x}_at_{}", m, mask, at));
-                                    break 'outer;
-                                }
-                            }
-                        }
-                    }
-                }
-                *self.stats.entry("corrupt_cases".into()).or_insert(0) += cases;
-                match bad {
-                    Some(m) => {
-                        self.oracle_failures += 1;
-                        self.emit(line, format!("ORACLE-FAIL {}", m), "-".into());
-                    }
-                    None => self.emit(line, "ok".into(), "-".into()),
-                }
-            }
             "bigfile" => {
                 // a large file built directly (no per-insert lines): n entries, default block size
                 let n: u32 = toks[1].parse().unwrap_or(1000);
@@ -1583,7 +1434,16 @@ impl Interp {
                         fired2.borrow_mut().push((stats, fr));
                     }
                 }
-                b.push(c);
+                // the three ways of registering a source, in turn: `push`, `add`, `extend`; every third
+                // cursor makes a round trip through `into_reader` / `into_cursor` first
+                let c = if j % 3 == 2 { c.into_reader().into_cursor().map_err(|e| fmt_err(&e))? } else { c };
+                match j % 3 {
+                    0 => b.push(c),
+                    1 => {
+                        b = b.add(c);
+                    }
+                    _ => b.extend(std::iter::once(c)),
+                }
             }
             let merger = b.build();
             if to_writer {
@@ -1681,6 +1541,10 @@ impl Interp {
 
     fn sorter_state(&mut self, s: &AnySorter) -> String {
         let (buf, elen, bc, chunks) = s.fingerprint();
+        if catch_unwind(AssertUnwindSafe(|| s.estimate())).is_err() {
+            self.oracle_failures += 1;
+            return "ORACLE-FAIL estimated_dumped_memory_usage_panicked".into();
+        }
         let trace = grenad::verif::take_alloc_trace();
         if let Some(msg) = Self::alloc_oracle(&mut self.alloc_live, &trace) {
             self.oracle_failures += 1;
